@@ -376,3 +376,34 @@ func (c *Ctx) CondCount(fn *ssa.Function, canon string, n int, why string) {
 	}
 	c.Check(len(es) == n, "K5", load.QualName(fn), fmt.Sprintf("%d branch(es) decide on `%s`", n, canon), site, fmt.Sprintf("found %d (%s)", len(es), why))
 }
+
+// EdgeReturns (K2): every return reachable from the edge taken when cond has
+// the given value returns, as result idx, a value whose canonical form matches want.
+func (c *Ctx) EdgeReturns(fn *ssa.Function, cond Cond, idx int, want, why string) {
+	if fn == nil {
+		return
+	}
+	fnName := load.QualName(fn)
+	what := "after `" + condStr(cond) + "` every exit returns `" + want + "`"
+	es := CondEdges(fn, cond)
+	if len(es) == 0 {
+		c.Fail("K2", fnName, what, "-", "condition not found")
+		return
+	}
+	for _, e := range es {
+		c.Sites++
+		reached := ReachFrom([]*ssa.BasicBlock{e.To()}, BackEdges(fn))
+		bad := ""
+		for _, r := range Returns(fn) {
+			if reached[r.Block()] && idx < len(r.Results) && !Glob(want, Canon(r.Results[idx])) {
+				bad = c.At(r) + " returns `" + Canon(r.Results[idx]) + "`"
+			}
+		}
+		site := c.At(e.From.Instrs[len(e.From.Instrs)-1])
+		if bad != "" {
+			c.Fail("K2", fnName, what, site, bad+" ("+why+")")
+		} else {
+			c.OK("K2", fnName, what, site, why)
+		}
+	}
+}
